@@ -325,7 +325,7 @@ def snap(o):
                 frozenset((p.x, p.y, p.z) for p in o.point_set),
                 frozenset(frozenset(((s.start_point.x, s.start_point.y, s.start_point.z),
                                      (s.end_point.x, s.end_point.y, s.end_point.z))) for s in o.segment_set),
-                len(o.pyramid_set), snap(o.center_point))
+                frozenset((snap(py.convex_polygon), snap(py.point)) for py in o.pyramid_set), snap(o.center_point))
     if k == "PY":
         return ("PY", snap(o.convex_polygon), snap(o.point))
     if k == "None":
